@@ -292,7 +292,7 @@ def run(ctx):
                     by_p.setdefault(p, []).append(dict(counts=counts, kind=kind, vals=_mkvals(rng, n, kind)))
     # sampled block (quick: the larger sizes and the other kinds) ------------------------------------
     if ctx.quick:
-        for _ in range(60):
+        for _ in range(40):
             p = rng.randrange(1, 5)
             n = rng.randrange(1, 9)
             counts = [0] * p
@@ -333,7 +333,7 @@ def run(ctx):
         ctx.compare(dict(c, serial=True), impl, want, note="comm=None path vs model tree", nontrivial=len(c["vals"]) > 2)
     # oracle on a sample (several scheduler seeds each) -----------------------------------------------------
     allc = [c for cs in by_p.values() for c in cs if sum(c["counts"]) > 0]
-    for c in rng.sample(allc, min(len(allc), ctx.n(3, 40))):
+    for c in rng.sample(allc, min(len(allc), ctx.n(2, 40))):
         r = oracle(dict(c, seeds=[rng.randrange(1 << 30) for _ in range(ctx.n(1, 3))]))
         ctx.stat("oracle-runs")
         if r:
